@@ -122,8 +122,12 @@ impl<'a> Renamer<'a> {
                 // the constant is the field `c` of the enum class named by `t`, its type is that class
                 if t.0.first() == Some(&b'L') && t.0.last() == Some(&b';') && t.0.len() > 2 {
                     let owner = JS(t.0[1..t.0.len() - 1].to_vec());
-                    let (c2, t2) = self.ans.field(&owner, c, t)?;
-                    self.note("ann.enum.type", t2 != *t); self.note("ann.enum.const", c2 != *c);
+                    // type_name is a descriptor position (map_field_desc); only the NAME is taken from map_field: for a class that
+                    // has a from-name but no to-name the two answers of the real remapper differ (map_field's descriptor shows the
+                    // namespace-0 name), and the descriptor question is the one this position asks
+                    let t2 = self.fdesc("ann.enum.type", t)?;
+                    let (c2, _) = self.ans.field(&owner, c, t)?;
+                    self.note("ann.enum.const", c2 != *c);
                     ElementValue::Enum(t2, c2)
                 } else { ElementValue::Enum(self.fdesc("ann.enum.type", t)?, c.clone()) }
             }
